@@ -45,8 +45,8 @@ CLAIMED.update({
                  "TLC as oracle over an enumerated input space (spec/Pure.tla: PlanOK), weakest use of the technique (pure function)"),
     "C16": comp("Every unit spelling x custom factor x value combination of the enumerated space is written as a JSON configuration, parsed by the three real Config.parse_* methods and judged by TLC against ConfigOK (same multiplier in all three sections, capacities/counts untouched, unit-independent volume).",
                  "TLC as oracle over an enumerated input space (spec/Pure.tla: ConfigOK), weakest use of the technique (pure function)"),
-    "C18": comp("TLC explores every tier-move history of spec/MC_Buffer.tla (sizes 1..6, rates 1..3 on each side, capacities, both directions, round trips) with conservation, rate, completion, single-residence and refusal clauses; the same histories executed on a real Buffer are validated event by event against the specification and the clauses.",
-                 "TLC model checking of MC_Buffer + TLC trace validation of real Buffer move histories"),
+    "C18": comp("TLC explores every tier-move history of spec/MC_Buffer.tla (sizes 1..6, rates 1..3 on each side and a `real time` cold tier, capacities, both directions, round trips) with conservation, rate, completion, single-residence and refusal clauses; the same histories executed on a real Buffer, and the moves that occur inside whole simulations (tiering configurations), are validated event by event against the specification and the clauses.",
+                 "TLC model checking of MC_Buffer + TLC trace validation of real Buffer move histories and of whole simulations"),
 })
 
 
